@@ -367,7 +367,7 @@ class StreamEngine(engines.HistEngine):
                     "what": what, "history": self.ops_of(h["lines"]), "trace": h["lines"],
                     "failing_event_index": r["fail_at"],
                     "known_pattern": [k[2:] for k in r["flag"] if k.startswith("k_")],
-                    "model_agrees": r["acc"] is None})
+                    "model_agrees": r["acc"] is None, "model_path_of_broken_obligation": model_path})
                 violations.append(("", path))
             if not violations and (divs or not (inst_ok and proof_ok)):
                 payload = {"property": pid, "engine": self.name, "kind": "no-failing-input-found"}
